@@ -105,7 +105,10 @@ def multiprocessing_run(
                         break
                     new_study_num += 1
             else:
-                study_restart = True
+                # Only treat this as a restart if the previous call got far enough to record its inputs. If it was
+                #    interrupted before that (empty or partial log) there is nothing to restart from: start over.
+                with open(mp_log_path, 'r') as mp_file:
+                    study_restart = '------------\n' in mp_file.readlines()
 
     mp_log_path = os.path.join(dir_to_use, 'tpy_mp.log')
     input_data_to_use = input_data
